@@ -151,6 +151,11 @@ type SecureChannel struct {
 	chunks   map[uint32][]*MessageChunk
 	chunksMu sync.Mutex
 
+	// rcvSequenceNumber is the sequence number of the last chunk received.
+	// It is only used by the goroutine which reads from the connection.
+	rcvSequenceNumber    uint32
+	rcvSequenceNumberSet bool
+
 	// openingInstance is a temporary var that allows the dispatcher know how to handle a open channel request
 	// note: we only allow a single "open" request in flight at any point in time. The mutex is held for the entire
 	// duration of the "open" request.
@@ -537,7 +542,30 @@ func (s *SecureChannel) readChunk() (*MessageChunk, error) {
 	}
 	m.Data = m.Data[n:]
 
+	if err := s.checkSequenceNumber(m.SequenceHeader.SequenceNumber); err != nil {
+		return nil, err
+	}
+
 	return m, nil
+}
+
+// checkSequenceNumber rejects a chunk which does not continue the sequence of
+// the chunks received so far. A verbatim copy of an earlier chunk passes all
+// other security checks, so this is what keeps a recorded chunk from being
+// delivered a second time. The numbers must increase and may only wrap to a
+// value below 1024 at the end of the range (Part 6, 6.7.2.4).
+func (s *SecureChannel) checkSequenceNumber(n uint32) error {
+	last := s.rcvSequenceNumber
+	switch {
+	case !s.rcvSequenceNumberSet:
+	case n > last:
+	case last >= math.MaxUint32-1024 && n < 1024:
+	default:
+		debug.Printf("uasc %d: sequence number %d does not follow %d", s.c.ID(), n, last)
+		return ua.StatusBadSequenceNumberInvalid
+	}
+	s.rcvSequenceNumber, s.rcvSequenceNumberSet = n, true
+	return nil
 }
 
 // verifyAndDecrypt verifies and optionally decrypts a message. if `instance` is given, then it will only use that
